@@ -23,8 +23,9 @@ CFG = {'lean_modules': ['ObiVerif.Props.C16'],
  'level_note': 'Trusted: Lean kernel; the transcription (Model/Grep.lean, Model/Annotate.lean); regexp / gval / obitax / obiapat verdicts are oracle parameters '
                '(the theorems hold for all of them; the tie passes the real verdicts as data); option parsing by go-getoptions is exercised, not modelled. Not '
                'modelled: the taxonomy/LCA/aho-corasick/--pattern annotation workers, HashClassifier and RotateClassifier of obidistribute (--hash, '
-               '--batches: by rank, not by record), file naming of WriterDispatcher. An explicit -l 1 / -c 1 / -L 2e9 / -C 2e9 cannot be told from the default by '
-               'the code (open finding): the theorems take "requested" as "differs from the built-in default".',
+               '--batches: by rank, not by record), file naming of WriterDispatcher. A minimum is "requested" when > 0 (default 0; a bound <= 0 holds of every '
+               'length and of every non-negative count: sizeHolds_exact / countHolds_exact), a maximum when it differs from its default 2e9 (an explicit '
+               '-L 2000000000 / -C 2000000000 cannot be told from absent).',
  'trusted_base': LEAN_TB + ['Go regexp, PaesslerAG/gval (OBILang), obitax and obiapat verdicts taken as data (oracle parameters of the model)',
                             'go-getoptions option parsing (exercised by every case, not modelled)',
                             'C03 stream theorems (divideOn_spec, filterOn_spec, distribute_spec, pairTo_spec) and their own tie'],
